@@ -363,6 +363,9 @@ def check_spatial_average(run, pkg):
     adds = [e for e in st if e.data["op"] == "+"]
     divs = [e for e in st if e.data["op"] == "/"]
     rn = calls(it, "PyMatterSim.neighbors.read_neighbors.read_neighbors")
+    if len(rn) == 1 and (len(adds) != 1 or len(divs) != 1 or len(adds[0].loops) != 3):
+        vectorised_spatial_average(run, it, fq, cg, rn[0])
+        return
     if len(adds) != 1 or len(divs) != 1 or len(rn) != 1:
         raise AnalysisError(f"spatial_average: expected one accumulation, one division, one reader call; found {len(adds)}, {len(divs)}, {len(rn)}")
     add, div, rd = adds[0], divs[0], rn[0]
@@ -400,6 +403,82 @@ def check_spatial_average(run, pkg):
     ok_a = len(args) >= 2 and args[1] == ("sub", ("attr", ip, "shape"), C(1))
     run.ob("R-PROTO", fq, "nparticle", ok_a, "reader is told the particle number of the input", show(args[1])[:60] if len(args) > 1 else "?",
            witness=None if ok_a else "wrong row count consumed per frame", loc=loc_of(it, rd))
+
+
+def vectorised_spatial_average(run, it, fq, cg, rd):
+    """Loop-free frame body: the statements that update the frame's slice of the result are replayed, as extracted terms, on
+    small zero-padded neighbour tables with unequal coordination numbers (one with a repeated neighbour) and compared with
+    (x_i + sum over listed neighbours x_j) / (1 + cn_i).  Scalar, vector and tensor properties."""
+    import numpy as np
+    from ..concrete import ev as cev, Unsupported
+    fi = it.fi
+    ip = ("sym", "input_property")
+    NL = rd.data["result"]
+    if not rd.loops:
+        run.ob("R-HANDLE", fq, "reader", False, "one neighbour frame is read per trajectory frame", "reader called outside the frame loop", witness="all frames use the first neighbour frame", loc=loc_of(it, rd))
+        return
+    Lf = it.loops[rd.loops[0]]
+    n = Lf.target
+    body = [e for e in stores(it) if e.loops == (Lf.id,) and e.data["target"][1] == cg and e.data["target"][2] == n]
+    others = [e for e in stores(it) if e.data["target"][1] == cg and e not in body]
+    if not body or others:
+        run.ob("R-ALG", fq, "form", None, "neighbour-average form recognised", f"{len(body)} frame-slice updates, {len(others)} other stores", loc=fi.loc())
+        return
+    CN = ("sym", "<cnlist>")
+    rng = np.random.default_rng(5)
+    bad = None
+    try:
+        for trial in range(6):
+            N = 6
+            shape = [(), (2,), (2, 2)][trial % 3]
+            X = rng.normal(size=(2, N) + shape)
+            cns = [2, 4, 1, 3, 2, 4] if trial % 2 == 0 else [4, 1, 2, 2, 3, 1]
+            cn = np.zeros((N, 5), dtype=int)
+            for i_ in range(N):
+                oth = [j for j in range(N) if j != i_]
+                rng.shuffle(oth)
+                cn[i_, 0] = cns[i_]
+                cn[i_, 1:1 + cns[i_]] = oth[:cns[i_]]
+            if trial >= 3:
+                cn[1, 2] = cn[1, 1]          # a neighbour listed twice (two periodic images in a small box)
+            for fr in (0, 1):
+                acc = X[fr].copy()
+                env = {ip: X, CN: cn, n: fr}
+                for e in body:
+                    v = cev(subst(e.data["value"], lambda x: CN if x == NL else (("sub", ip, n) if x == ("sub", cg, n) else None)), env)
+                    op = e.data["op"]
+                    if op is None:
+                        acc = np.asarray(v, dtype=float)
+                    elif op == "+":
+                        acc = acc + v
+                    elif op == "/":
+                        acc = acc / v
+                    elif op == "*":
+                        acc = acc * v
+                    elif op == "-":
+                        acc = acc - v
+                    else:
+                        raise Unsupported(op)
+                want = np.array([(X[fr, i_] + sum(X[fr, j] for j in cn[i_, 1:1 + cn[i_, 0]])) / (1 + cn[i_, 0]) for i_ in range(N)])
+                if np.shape(acc) != want.shape or not np.allclose(acc, want):
+                    k = int(np.argmax(np.abs(acc - want).reshape(N, -1).sum(axis=1))) if np.shape(acc) == want.shape else 0
+                    bad = (f"neighbour table with coordination numbers {cns}" + (" and a repeated neighbour" if trial >= 3 else "") + f" (zero padded to 4 columns), {['scalar', 'vector', 'tensor'][trial % 3]} property: "
+                           f"particle {k} (neighbours {cn[k, 1:1 + cn[k, 0]].tolist()}) gets {np.round(np.ravel(acc[k])[:2], 4).tolist() if np.shape(acc) == want.shape else np.shape(acc)} instead of {np.round(np.ravel(want[k])[:2], 4).tolist()}")
+                    break
+            if bad:
+                break
+        run.ob("R-ALG", fq, "mean", bad is None, "x_i + sum over the cn_i listed neighbours of the input x_j, divided by 1 + cn_i (zero padding and the count column excluded); vectorised form "
+               "decided on 6 padded neighbour tables x 2 frames", "; ".join(key_of(e)[:70] for e in body), witness=bad, loc=loc_of(it, body[0]))
+    except (Unsupported, Exception) as e:  # noqa
+        run.ob("R-ALG", fq, "form", None, "neighbour-average form recognised", f"{type(e).__name__}: {str(e)[:100]}", loc=fi.loc())
+    start = cg[0] == "call" and cg[1] in ("numpy.copy", ".copy", "numpy.array", "numpy.zeros_like", "numpy.empty_like") and cg[2] and cg[2][0] == ip
+    run.ob("R-ALG", fq, "start", start, "the result is a fresh array derived from the input (the input is not modified)", show(cg)[:80], witness=None if start else "input aliased", loc=fi.loc())
+    rc = rd.data["call"]
+    handle = rc[2][0] if rc[2] else None
+    opened = [e for e in it.events if e.kind == "with" and e.data["value"][0] == "call" and e.data["value"][1] == "builtins.open"]
+    ok_h = bool(opened) and handle == opened[0].data["value"] and not opened[0].loops and set(rd.loops) == {Lf.id}
+    run.ob("R-HANDLE", fq, "reader", ok_h, "the neighbour file is opened once before the frame loop and read once per frame", f"read_neighbors in loops {rd.loops}",
+           witness=None if ok_h else "multi-frame files are re-read from the start / read per particle", loc=loc_of(it, rd))
 
 
 def check_time_average(run, pkg):
